@@ -117,9 +117,25 @@ func (e *Encoder) writeValue(val reflect.Value, tagType byte) error {
 					}
 				}
 			case reflect.Uint8:
-				data = val.Bytes()
+				if val.Kind() == reflect.Array && !val.CanAddr() {
+					// Value.Bytes needs a slice or an addressable array
+					data = make([]byte, val.Len())
+					for i := range data {
+						data[i] = byte(val.Index(i).Uint())
+					}
+				} else {
+					data = val.Bytes()
+				}
 			case reflect.Int8:
-				data = unsafe.Slice((*byte)(val.UnsafePointer()), val.Len())
+				if val.Kind() == reflect.Array {
+					// Value.UnsafePointer is not defined for arrays
+					data = make([]byte, val.Len())
+					for i := range data {
+						data[i] = byte(val.Index(i).Int())
+					}
+				} else {
+					data = unsafe.Slice((*byte)(val.UnsafePointer()), val.Len())
+				}
 			}
 			_, err := e.w.Write(data)
 			return err
